@@ -362,3 +362,6 @@ func (r *Report) Only(prefix string) {
 	}
 	r.obls = keep
 }
+
+// All returns every obligation recorded so far.
+func (r *Report) All() []Obl { return r.obls }
